@@ -52,7 +52,7 @@ fn main() {
             let from: u64 = args[5].parse().unwrap();
             let to: u64 = args[6].parse().unwrap();
             let sweep = args.iter().any(|a| a == "--sweep");
-            with_world!(world, W => runner::miri_batch::<W>(prop, seed, from, to, sweep, 1, 0))
+            with_world!(world, W => runner::miri_batch::<W>(prop, seed, from, to, sweep, 1, 0, false))
         }
         Some("noop") => 0,
         Some("minimise-inproc") => runner::cmd_minimise_inproc(args.get(2).expect("usage: ksim minimise-inproc <job.json>")),
